@@ -193,9 +193,11 @@ def Qratio(z1, z2, nstop, dns1 = None, dns2 = None, eps1 = 1e-3, eps2 = 1e-16):
     # Next to a multiple of pi psi_0 = sin z vanishes: Q_0 then is (or is the
     # reciprocal of) a rounding error that the first step below multiplies
     # with another one. Q_1 has a closed form that has no such problem.
+    # (Only that close: the closed form of psi_1 cancels next to ITS zeros,
+    # which lie at least 0.01 away from the multiples of pi.)
     start = 1
     if (nstop >= 1 and max(abs(b1), abs(b2)) < 100. and
-            min(abs(1. - exp(-2j*z1)), abs(1. - exp(-2j*z2))) < 0.1):
+            min(abs(1. - exp(-2j*z1)), abs(1. - exp(-2j*z2))) < 1e-3):
         def psi_over_xi_1(z):
             psi_1 = sin(z)/z - cos(z)
             return psi_1 / (psi_1 - 1j*(cos(z)/z + sin(z)))
